@@ -977,7 +977,7 @@ type c17LongIDCase struct {
 func c17LongIDSub() *engine.Sub {
 	return &engine.Sub{
 		Name:  "longest-identifiers",
-		Rule:  "a container holding a delegation whose audience is the did:key of an RSA-8192 public key (about 1430 characters, the longest identifier the DID package produces) and a delegation whose not-before and expiration bounds lie inside one wall-clock second (nbf < exp in memory, equal on the wire) next to two ordinary tokens, written and read in the four formats x byte-slice / stream variants: the reader holds exactly the tokens added (what the library writes it reads); non-trivial = all",
+		Rule:  "(also: a delegation and an invocation whose metadata / arguments hold maps of the shape DAG-JSON reserves - {\"/\": text}, {\"/\": {\"bytes\": text}} - which are ordinary maps in DAG-CBOR) a container holding a delegation whose audience is the did:key of an RSA-8192 public key (about 1430 characters, the longest identifier the DID package produces) and a delegation whose not-before and expiration bounds lie inside one wall-clock second (nbf < exp in memory, equal on the wire) next to two ordinary tokens, written and read in the four formats x byte-slice / stream variants: the reader holds exactly the tokens added (what the library writes it reads); non-trivial = all",
 		Bound: func(string) string { return "4 formats x 2 writers x 2 readers" },
 		Gen: func(tier string, emit func(any) bool) {
 			for _, f := range []string{"car", "car64", "cbor", "cbor64"} {
@@ -993,7 +993,7 @@ func c17LongIDSub() *engine.Sub {
 		NewCase: func() any { return &c17LongIDCase{} },
 		Run: func(ctx *engine.Ctx, c any) {
 			cs := c.(*c17LongIDCase)
-			names := []string{"dlg", "dlgrsa8k", "inv", "dlgsamesec"}
+			names := []string{"dlg", "dlgrsa8k", "inv", "dlgsamesec", "dlgslash", "invslash"}
 			w := container.NewWriter()
 			for _, n := range names {
 				t := ioToken(n)
